@@ -255,6 +255,25 @@ def analyse(ctx, sc, evs, ode, spy, exc, focus, lines, pending):
                     ordered = all(b > a for a, b in zip(st, st[1:]))
                     ctx.oracle("dense-output-ordered-after-stop", ordered and abs((st[-1] if not backward else st[0]) - float(t[-1])) <= 1e-12, dict(inp, t_eval_tail=st[-4:], last_time=float(t[-1])),
                                key="terminal-event-dense-unsorted", what="dense output after the terminal stop: piece end times %s, last recorded time %r" % (st[-4:], float(t[-1])))
+                # continuation WITH the same events (the way a bouncing-ball loop is written): the crossing the run stopped at must not fire
+                # again at the very point where the call starts, and must not be listed a second time
+                if focus in ("C09", "all"):
+                    try:
+                        ode2, _, exc2 = eventsim.run_case(method_class(sc["method"]), sc["t0"], sc["tf"], sc["dt"], evs, sc["dense"], omega=omega)
+                        if exc2 is None and ode2.integration_status.startswith("Integration terminated"):
+                            te2 = float(ode2.t[-1])
+                            nev2 = len(ode2.events)
+                            ode2.integrate(events=evs)
+                            moved = abs(float(ode2.t[-1]) - te2) > 1e-9
+                            ctx.oracle("continuation-with-the-same-events-leaves-the-stop", moved, dict(inp, stop=te2, end_after_second_call=float(ode2.t[-1]), status=ode2.integration_status[:40]),
+                                       key="same-terminal-event-fires-again-at-the-stop",
+                                       what="called again with the same events after the terminal stop at t=%r, the system is still at t=%r (%s)" % (te2, float(ode2.t[-1]), ode2.integration_status[:40]))
+                            again = [e for e in ode2.events[nev2:] if any(e.event is f.event and abs(float(e.t) - float(f.t)) <= 1e-9 for f in ode2.events[:nev2])]
+                            ctx.oracle("no-crossing-listed-again-by-the-next-call", not again, dict(inp, stop=te2, listed_again=[float(e.t) for e in again][:4]),
+                                       key="same-terminal-event-fires-again-at-the-stop",
+                                       what="the crossing at t=%r, already in the event list, was listed again by the next call" % (float(again[0].t) if again else None,))
+                    except Exception as e:
+                        ctx.oracle("continuation-with-the-same-events-leaves-the-stop", False, dict(inp, error=repr(e)[:200]), what="continuation with the same events raised %r" % (e,))
                 # continuation
                 try:
                     n_before = len(ode.t)
